@@ -111,6 +111,7 @@ func main() {
 	run.Floor("upgrade_exchanges", int64(n/2))
 	run.Floor("configz_fetched", int64(n*7/10))
 	run.Floor("error_responses_scanned", int64(n))
+	concurrentErrorsMode(run)
 	run.Finish()
 }
 
